@@ -6,6 +6,7 @@ mod c28;
 mod c29;
 mod c30;
 mod ctl;
+mod toy;
 mod world;
 
 use serde_json::{Value, json};
@@ -244,13 +245,17 @@ fn main() {
 /// setup-time self test: the controller must find the textbook 2-lock deadlock in a toy
 /// program and replay it identically.
 fn selftest(args: &Args) -> ! {
+    match toy::selftest() {
+        Ok(r) => println!("{r}"),
+        Err(e) => {
+            println!("SELFTEST FAILED: {e}");
+            std::process::exit(2)
+        }
+    }
+    // throughput probe on the real server (informational)
     let cands = c28::candidates();
     let msgs: Vec<&(String, world::Msg)> = cands.iter().filter(|c| c.0 == "hover" || c.0 == "didChange:a").collect();
     let scn = c28::base_scenario("timing", &msgs, false);
-    world::PROFILE.store(true, std::sync::atomic::Ordering::Relaxed);
-    let _ = world::run(&scn, &[], &thread_root(args));
-    let _ = world::run(&scn, &[], &thread_root(args));
-    world::PROFILE.store(false, std::sync::atomic::Ordering::Relaxed);
     let t0 = std::time::Instant::now();
     let n = 50;
     let mut dec = 0;
@@ -258,17 +263,7 @@ fn selftest(args: &Args) -> ! {
         let e = world::run(&scn, &[], &thread_root(args));
         dec += e.trace.points.len();
     }
-    println!("selftest: {n} executions, {} decisions, {:.2} ms per execution", dec, t0.elapsed().as_secs_f64() * 1000.0 / n as f64);
-    let t1 = std::time::Instant::now();
-    std::thread::scope(|s| {
-        for _ in 0..16 {
-            s.spawn(|| {
-                for _ in 0..300 {
-                    let _ = world::run(&scn, &[], &thread_root(args));
-                }
-            });
-        }
-    });
-    println!("selftest: 16 threads x 300 executions in {:.2} s => {:.2} ms per execution per thread", t1.elapsed().as_secs_f64(), t1.elapsed().as_secs_f64() * 1000.0 / 300.0);
+    println!("real server: {n} executions, {dec} decisions, {:.2} ms per execution", t0.elapsed().as_secs_f64() * 1000.0 / n as f64);
+    println!("selftest ok");
     std::process::exit(0)
 }
